@@ -4,6 +4,9 @@
    difference as a failing input). *)
 From ReqV Require Export Lib.Bytes Model.H1Resp.
 
+(* run-length pieces in harness-generated streams: [rep n b] = n copies of byte b *)
+Definition rep (n b : nat) : bytes := repeat (byte_of_N_total (N.of_nat b)) n.
+
 Inductive obs_resp :=
 | ORej (e : herr)
 | OAcc (proto : bytes) (code : Z) (status : bytes) (hdr : hmap) (cl : Z) (chunked close : bool)
